@@ -871,6 +871,20 @@ func r3TableFresh(c *core.Ctx, r *core.Reporter) {
 			continue
 		}
 		key := core.FuncKey(fn) + "/rebuild-before-consulting"
+		// a schema allocated by this very function has no table yet: readers take their table-less path, and where the
+		// table is built relative to them cannot change an answer
+		freshSchema := false
+		if args := rebuild.Common().Args; len(args) > 0 {
+			for _, o := range core.Origins(args[0]) {
+				if al, ok := o.(*ssa.Alloc); ok && al.Parent() == fn {
+					freshSchema = true
+				}
+			}
+		}
+		if freshSchema {
+			r.OK(key, rebuild.Pos(), "the schema is allocated here: there is no earlier table that a reader could consult")
+			continue
+		}
 		bad := ""
 		for _, ci := range core.CallSites(fn) {
 			if ci == rebuild {
@@ -940,6 +954,19 @@ func r3PlainKey(c *core.Ctx, r *core.Reporter) {
 					for _, e := range x.Edges {
 						flat(e)
 					}
+				case *ssa.Call:
+					// the key built by a helper: look at what the helper returns (its own parameters stand for the strings)
+					if cal := x.Call.StaticCallee(); cal != nil && c.IsLib(cal) && len(cal.Blocks) > 0 && cal.Signature.Results().Len() == 1 {
+						rets := core.Returns(cal)
+						if len(rets) != 1 {
+							shapeOK = false
+						}
+						for _, ret := range rets {
+							flat(core.RetVal(ret, 0))
+						}
+						return
+					}
+					leaves = append(leaves, v)
 				default:
 					leaves = append(leaves, v)
 				}
@@ -1006,7 +1033,7 @@ func r3FingerprintOrder(c *core.Ctx, r *core.Reporter) {
 			}
 			switch cal.Pkg.Pkg.Path() {
 			case "sort", "slices":
-				if strings.HasPrefix(cal.Name(), "Sort") || strings.HasPrefix(cal.Name(), "Slice") || cal.Name() == "Strings" || cal.Name() == "Stable" || cal.Name() == "Reverse" {
+				if (strings.HasPrefix(cal.Name(), "Sort") || strings.HasPrefix(cal.Name(), "Slice") || cal.Name() == "Stable" || cal.Name() == "Reverse") && sortsSelections(ci) {
 					if bad == "" || core.FuncKey(fn) < bad {
 						bad = core.FuncKey(fn) + " calls " + cal.Pkg.Pkg.Path() + "." + cal.Name()
 						pos = ci.Pos()
@@ -1015,11 +1042,33 @@ func r3FingerprintOrder(c *core.Ctx, r *core.Reporter) {
 			}
 		}
 	}
-	r.Check(bad == "", "fingerprintDocument/document-order", pos, fmt.Sprintf("no sorting call in the %d functions of the fingerprint computation", n),
+	r.Check(bad == "", "fingerprintDocument/document-order", pos, fmt.Sprintf("no call that sorts or reorders selections in the %d functions of the fingerprint computation", n),
 		bad+" while computing the document fingerprint: documents that differ only in the order of selections get one key and share a plan — a mutation whose top-level fields arrive through a fragment is executed in the other document's order")
 }
 
 // ---------------------------------------------------------------------------------------------------------------------
+
+// sortsSelections: the slice handed to the sorting call holds selections (fields, spreads, inline fragments). Sorting
+// arguments or variable definitions by name would be a sound canonicalisation (their order carries no meaning).
+func sortsSelections(ci ssa.CallInstruction) bool {
+	args := ci.Common().Args
+	if len(args) == 0 {
+		return false
+	}
+	t := args[0].Type()
+	if mi, ok := args[0].(*ssa.MakeInterface); ok {
+		t = mi.X.Type()
+	}
+	sl, ok := t.Underlying().(*types.Slice)
+	if !ok {
+		return false
+	}
+	switch core.TypeName(derefT(sl.Elem())) {
+	case "Selection", "Field", "FragmentSpread", "InlineFragment", "SelectionSet":
+		return true
+	}
+	return false
+}
 
 func upperSnake(s string) string {
 	var b strings.Builder
@@ -1632,6 +1681,20 @@ func r3PrevEnd(c *core.Ctx, r *core.Reporter) {
 				if core.InstrDominates(ps, ts) {
 					dom = true
 				}
+			}
+			// the bookkeeping extracted into a helper that is called first
+			for _, ci := range core.CallSites(fn) {
+				cal := ci.Common().StaticCallee()
+				if cal == nil || !c.IsLib(cal) || cal == fn || !core.InstrDominates(ci, ts) {
+					continue
+				}
+				core.Instrs(cal, func(in ssa.Instruction) {
+					if st, ok := in.(*ssa.Store); ok {
+						if fa, ok := st.Addr.(*ssa.FieldAddr); ok && core.FieldOf(fa) == prev {
+							dom = true
+						}
+					}
+				})
 			}
 			r.Check(dom, key, ts.Pos(), "the store to Parser.Token is dominated by a store to Parser.PrevEnd",
 				core.FuncKey(fn)+" installs a new current token on a path that does not update Parser.PrevEnd: the node built right after it gets a location that ends before the node's own text")
